@@ -114,7 +114,10 @@ class Sys(e1.TimedSys):
         elif act[0] == "unsub":
             m.requested.remove((act[1], act[2]))
             m.since.pop((act[1], act[2]), None)
-            sub.stop_subscribe_eventgroup(self.egs[act[1]], SRV[act[2]])
+            # requests name eventgroups by value: the stop comes with an equal description that is another object
+            # (the auto-subscribe listener builds a fresh one for every call)
+            import dataclasses
+            sub.stop_subscribe_eventgroup(dataclasses.replace(self.egs[act[1]]), tuple(SRV[act[2]]))
         elif act[0] == "start":
             m.alive = True
             for p in m.requested:
